@@ -96,6 +96,27 @@ def TS.take (s : TS) : PyM TS := do
   let (c, s) ← s.pop
   pure { s with value := s.value ++ [c] }
 
+/-- `2^k` for integer `k` -/
+def pow2 (k : Int) : Rat := if k ≥ 0 then ((2 ^ k.toNat : Nat) : Rat) else 1 / ((2 ^ (-k).toNat : Nat) : Rat)
+
+/-- round a rational to the nearest IEEE-754 double (ties to even; overflow to ±inf; subnormals): what
+`float()` and every floating-point operation do -/
+def roundDouble (q : Rat) : Val :=
+  if q = 0 then .num 0
+  else
+    let a : Rat := if q < 0 then -q else q
+    let e0 : Int := (Nat.log2 a.num.natAbs : Int) - (Nat.log2 a.den : Int)
+    let e1 : Int := if a < pow2 e0 then e0 - 1 else e0
+    let e : Int := if e1 < -1022 then -1022 else e1
+    let scale : Rat := pow2 (e - 52)
+    let t : Rat := a / scale
+    let fl : Int := t.floor
+    let frac : Rat := t - (fl : Rat)
+    let m : Int := if frac > 1 / 2 then fl + 1 else if frac < 1 / 2 then fl else (if fl % 2 = 0 then fl else fl + 1)
+    let r : Rat := (m : Rat) * scale
+    if r ≥ pow2 1024 then (if q < 0 then .ninf else .pinf)
+    else .num (if q < 0 then -r else r)
+
 /-! `float(text)` for the shapes the scanner can produce: `-?d+(.d*)?([eE][+-]?d*)?` -/
 def digitsToNat (ds : List Char) : Nat := ds.foldl (fun n c => 10 * n + (c.toNat - '0'.toNat)) 0
 
@@ -129,10 +150,7 @@ def pyFloat? (txt : List Char) : Option Val := do
   if e10 > 400 then return (if neg then .ninf else .pinf)
   if e10 < -2000 then return .num 0
   let q : Rat := if e10 ≥ 0 then (mant : Rat) * (10 : Rat) ^ e10.toNat else (mant : Rat) / (10 : Rat) ^ (-e10).toNat
-  -- overflow threshold of IEEE double (round-to-nearest): 2^1024 - 2^970
-  let thr : Rat := (2 : Rat) ^ 1024 - (2 : Rat) ^ 970
-  if q ≥ thr then return (if neg then .ninf else .pinf)
-  return .num (if neg then -q else q)
+  return roundDouble (if neg then -q else q)
 
 def pyFloat (txt : List Char) : PyM Val :=
   match pyFloat? txt with
@@ -298,7 +316,13 @@ structure Parsed where
 
 def mulDiv100 (a b : Val) : Val :=
   match a, b with
-  | .num x, .num y => .num (x * y / 100)
+  | .num x, .num y =>
+    -- `value * limit.value / 100` in doubles: two roundings
+    match roundDouble (x * y) with
+    | .num p => roundDouble (p / 100)
+    | .pinf => .pinf
+    | .ninf => .ninf
+    | .nan => .nan
   | _, _ => .nan   -- not reachable: both come from Number tokens that are finite, inf is handled as-is below
 
 /-- `Parser.param_limit` -/
